@@ -28,6 +28,14 @@ type c04Sub struct {
 }
 
 func runC04(c *harness.Ctx) {
+	defer maybeWoven(c)()
+	if wovenBuild {
+		// a stalled handler thread: time may pass between two statements of one
+		// connection's handshake while another connection is served
+		c.S.TimeSkip = []int{0, 20, 100}[c.T.Draw("timeskip", 3)]
+		c.S.SkipMax = 100 * time.Millisecond
+		c.S.SkipBudget = time.Second
+	}
 	t := c.T
 	setBias(false)
 	id := genObfs4Identity(c, 0)
@@ -42,6 +50,12 @@ func runC04(c *harness.Ctx) {
 		c.S.Sleep(time.Hour - 2*time.Second + time.Duration(t.Draw("t0ms", 4000))*time.Millisecond)
 	case 2:
 		c.S.Sleep(time.Duration(t.Draw("t0min", 60)) * time.Minute)
+	}
+	// how long a reference client waits for an answer before it takes silence
+	// for a rejection (longer when the simulated machine may stall)
+	patience, settle := 2*time.Second, 5*time.Second
+	if c.S.TimeSkip > 0 {
+		patience, settle = 5*time.Second, 8*time.Second
 	}
 	var blobs []*c04Blob
 	nSub := 0
@@ -72,7 +86,7 @@ func runC04(c *harness.Ctx) {
 				sub.detail = "write: " + err.Error()
 				return
 			}
-			l.A.SetReadDeadline(time.Now().Add(2 * time.Second))
+			l.A.SetReadDeadline(time.Now().Add(patience))
 			var buf []byte
 			tmp := make([]byte, 8192)
 			for {
@@ -149,6 +163,14 @@ func runC04(c *harness.Ctx) {
 		if gap > 0 {
 			c.S.Sleep(gap)
 		}
+		if c.S.TimeSkip > 0 {
+			// under stalls a submission may be processed up to the skip budget
+			// later than it was crafted: stay clear of the next hour boundary so
+			// that "the server's hour when it processes it" is well defined
+			if left := time.Hour - time.Duration(time.Now().UnixNano()%int64(time.Hour)); left < 2*time.Second {
+				c.S.Sleep(left + time.Millisecond)
+			}
+		}
 		kind := t.Draw("op", 4)
 		if len(blobs) == 0 && (kind == 1) {
 			kind = 0
@@ -162,7 +184,7 @@ func runC04(c *harness.Ctx) {
 			}
 			b := newBlob(off)
 			sub := submit(b)
-			c.S.Run(func() bool { return sub.done }, 5*time.Second)
+			c.S.Run(func() bool { return sub.done }, settle)
 			what := fmt.Sprintf("op %d fresh(offset %+d)", op, off)
 			check(sub, E, inWindow(b.hour, E), what)
 			if sub.accepted {
@@ -173,7 +195,7 @@ func runC04(c *harness.Ctx) {
 		case 1: // replay of an earlier blob
 			b := blobs[t.Draw("which", len(blobs))]
 			sub := submit(b)
-			c.S.Run(func() bool { return sub.done }, 5*time.Second)
+			c.S.Run(func() bool { return sub.done }, settle)
 			what := fmt.Sprintf("op %d replay(blob %d)", op, b.id)
 			check(sub, E, b.accepted == 0 && inWindow(b.hour, E), what)
 			if sub.accepted {
@@ -204,7 +226,7 @@ func runC04(c *harness.Ctx) {
 					}
 				}
 				return true
-			}, 5*time.Second)
+			}, settle)
 			acc := 0
 			for _, s := range subs {
 				if s.accepted {
